@@ -1,9 +1,11 @@
 import GbVerif.Model.JitStatus
+import GbVerif.Model.JitPaths
 /-
 C01 (bus writes of translated code, their number): translated code reaches the bus only through `call rax` with one of
 the five helper pointers in rax (X86Wf).  `memory_write_byte` performs one byte write, `memory_write_word` and
 `memory_push_word` two.  Over every path through the code of an instruction the number of byte writes must be the
 number the interpreter model performs for that instruction (both branch outcomes) — which bytes and where is data.
+Walked by `JitPaths.paths`; soundness for executions of the x86 model: `Proofs/X86Writes.lean`.
 -/
 namespace GbVerif.JitWrites
 open GbVerif.X86 GbVerif.JitCycles
@@ -12,43 +14,23 @@ open GbVerif.X86 GbVerif.JitCycles
 def helperWrites (p : Nat) : Option Nat :=
   if p == 513 || p == 515 then some 0 else if p == 514 then some 1 else if p == 516 || p == 517 then some 2 else none
 
-/-- byte-write counts over the paths from instruction `i` to the end of the code; `rax` = the helper pointer the last
-`movabs rax, p` put there (a call with anything else in rax is refused) -/
-def pathWrites (code : List (Nat × Instr)) (endOff : Nat) : Nat → Nat → Nat → Option Nat → Option (List Nat)
-  | _, 0, _, _ => none
-  | i, fuel+1, acc, rax =>
-    match code[i]? with
-    | none => if i == code.length then some [acc] else none
-    | some (_, ins) =>
-      let nextOff := match code[i+1]? with | some (o, _) => o | none => endOff
-      match ins with
-      | .jcc _ rel =>
-        if rel ≥ 128 then none else
-        match indexOf code endOff (nextOff + rel) with
-        | some j => if j ≤ i then none else
-          match pathWrites code endOff (i+1) fuel acc rax, pathWrites code endOff j fuel acc rax with
-          | some a, some b => some (a ++ b)
-          | _, _ => none
-        | none => none
-      | .jmp rel =>
-        if rel ≥ 128 then none else
-        match indexOf code endOff (nextOff + rel) with
-        | some j => if j ≤ i then none else pathWrites code endOff j fuel acc rax
-        | none => none
-      | .movabs 0 p => pathWrites code endOff (i+1) fuel acc (some p)
-      | .callRax =>
-        match rax with
-        | some p => match helperWrites p with
-          | some n => pathWrites code endOff (i+1) fuel (acc + n) none
-          | none => none
-        | none => none
-      | .pop 0 | .mov _ 0 _ | .load _ 0 _ _ | .movi16 0 _ => pathWrites code endOff (i+1) fuel acc none
-      | _ => pathWrites code endOff (i+1) fuel acc rax
+/-- abstract state: byte writes so far and the helper pointer the last `movabs rax, p` put into rax (`none` once
+anything else wrote rax) -/
+abbrev WrSt := Nat × Option Nat
 
-def jitWrites (tokens : List Nat) : Option (List Nat) :=
-  match decodeCode tokens with
-  | none => none
-  | some code => (pathWrites code (bytesOf tokens) 0 (code.length + 2) 0 none).map norm
+/-- transfer function; a call with anything but a known helper pointer in rax is refused -/
+def trWr (ins : Instr) (a : WrSt) : Option WrSt :=
+  match ins with
+  | .movabs 0 p => some (a.1, some p)
+  | .callRax =>
+    match a.2 with
+    | some p => match helperWrites p with
+      | some n => some (a.1 + n, none)
+      | none => none
+    | none => none
+  | ins => if destReg ins == some 0 then some (a.1, none) else some a
+
+def jitWrites (tokens : List Nat) : Option (List Nat) := JitPaths.analyse trWr (0, none) (fun a => some a.1) tokens
 
 /-- a bus that counts its byte writes -/
 def countBus : Interp.BusOps Nat := ⟨fun _ _ => .ok 0, fun m _ _ => .ok (m + 1)⟩
